@@ -23,6 +23,9 @@ pub struct FsCfg {
     /// die (`_exit`) right before mutation `kill_at` (counted while a phase is set)
     pub kill_at: Option<u64>,
     pub eintr_permille: u32,
+    /// inject EINTR into writes only (callers that read with a bare `read()` need not retry by the property's letter)
+    #[serde(default)]
+    pub eintr_writes_only: bool,
     pub short_permille: u32,
     pub enospc_permille: u32,
     pub eio_permille: u32,
@@ -484,7 +487,7 @@ unsafe fn read_common(op: &'static str, fd: c_int, n: size_t, doit: &dyn Fn(size
     rt::switch_from(m, Why::Fs);
     let s = state().unwrap();
     let path = s.fds.get(&fd).unwrap().path.clone();
-    if coin("eintr-read", s.cfg.eintr_permille) {
+    if !s.cfg.eintr_writes_only && coin("eintr-read", s.cfg.eintr_permille) {
         errno_set(libc::EINTR);
         log(op, m, &path, b"", n as i32, -1, None);
         return -1;
